@@ -152,7 +152,9 @@ reg(Spec(
         "what Ingest does on cancellation and on open(2) failures is outside C12 (see C13) - except that a callback error is to be returned unchanged also when the context was cancelled before the callback returned it (by the callback or by another goroutine; the close-on-cancel goroutine has closed the file or not: harness cases 'cancel', oracle and model unchanged by them)",
     ],
     modelled=["ingesters/namedpipe/namedpipeingester.go (Ingest loop)", "ingesters/syslog/syslogingester.go (ParseSyslogMessage)"],
-    extra_targets=["Model/FramingCheck.vo", "Model/SyslogCheck.vo"],
+    extra_targets=["Model/FramingCheck.vo", "Model/SyslogCheck.vo", "Model/BufioCheck.vo"],
+    # the bufio.Reader model against the real package: both tiers
+    thorough_extra=[("bufio", {}, ["-n", "3000"], False, ["-n", "250"])],
 ))
 
 for _p in ("C05", "C07"):
